@@ -665,11 +665,10 @@ theorem lognot_computes (t : ITy) (r : BitVec 64) (v : Int) (h : Represents t r 
   cases t <;> simp only [ITy.size, UnKind.fn] <;> simp <;> apply rep_b64' <;> unfold_spec <;> bv_ints'
 
 
-/-! ### postfix `++` / `--` (parse.c `new_inc_dec`): `(T)((x += addend) - addend)` -/
+/-! ### postfix `++` / `--` (parse.c `new_inc_dec`) -/
 
-/-- value and stored value of `x++` (addend 1) / `x--` (addend -1) as chibicc computes them,
-    every step with its C11 meaning (`compound` = `op=`, `binop`, `convert`) -/
-def chibiPostfix (T : ITy) (x addend : Int) : Option (Int × Int) :=
+/-- the old rewriting `(T)((x += addend) - addend)`, every step with its C11 meaning (`compound` = `op=`, `binop`, `convert`) -/
+def postfixBySubtraction (T : ITy) (x addend : Int) : Option (Int × Int) :=
   match compound .add T .i32 x addend with
   | none => none
   | some r =>
@@ -677,17 +676,29 @@ def chibiPostfix (T : ITy) (x addend : Int) : Option (Int × Int) :=
     | none => none
     | some y => some (convert T y, r)
 
+/-- the rewriting for operands whose `+=` can saturate: `tmp1 = &A, tmp2 = *tmp1, *tmp1 = tmp2 + addend, tmp2` -/
+def postfixByTemporary (T : ITy) (x addend : Int) : Option (Int × Int) :=
+  match compound .add T .i32 x addend with
+  | none => none
+  | some r => some (x, r)
+
+/-- value and stored value of `x++` (addend 1) / `x--` (addend -1) as chibicc computes them.  `viaObject` = the operand is
+    an ordinary object (not a bit-field member, not `_Atomic`): `new_inc_dec` takes the temporary route for `_Bool` (and
+    floating) operands only in that case. -/
+def chibiPostfix (T : ITy) (viaObject : Bool) (x addend : Int) : Option (Int × Int) :=
+  if T = .bool ∧ viaObject then postfixByTemporary T x addend else postfixBySubtraction T x addend
+
 /-- C11 6.5.2.4p2: the result is the value of the operand; the stored value is that of `x += addend` -/
 def specPostfix (T : ITy) (x addend : Int) : Option (Int × Int) :=
   match compound .add T .i32 x addend with
   | none => none
   | some r => some (x, r)
 
-/-- chibicc's `(T)((x += a) - a)` is the old value of `x` for every integer type except `_Bool` -/
+/-- `(T)((x += a) - a)` is the old value of `x` for every integer type except `_Bool` -/
 theorem incdec_value (T : ITy) (hT : T ≠ .bool) (x addend : Int) (hx : T.inRange x)
     (ha : addend = 1 ∨ addend = -1) (res : Int × Int) (h : specPostfix T x addend = some res) :
-    chibiPostfix T x addend = some res := by
-  unfold specPostfix at h; unfold chibiPostfix
+    postfixBySubtraction T x addend = some res := by
+  unfold specPostfix at h; unfold postfixBySubtraction
   cases hc : compound .add T .i32 x addend with
   | none => simp [hc] at h
   | some r =>
